@@ -45,6 +45,7 @@ impl Core {
         }
 
         let mut should_add_node = false;
+        let mut result = None;
         let author_id = message.get_author_id();
         let from_version = message.version.to_owned();
 
@@ -81,7 +82,7 @@ impl Core {
                     let response = Response::Peers(values);
                     query.response(from, response.clone());
 
-                    return Some((target, response));
+                    result = Some((target, response));
                 }
                 MessageType::Response(ResponseSpecific::GetSignedPeers(
                     GetSignedPeersResponseArguments {
@@ -115,7 +116,7 @@ impl Core {
                         let response = Response::SignedPeers(verified_peers);
                         query.response(from, response.clone());
 
-                        return Some((target, response));
+                        result = Some((target, response));
                     }
                 }
                 MessageType::Response(ResponseSpecific::GetImmutable(
@@ -127,18 +128,18 @@ impl Core {
                         let response = Response::Immutable(v);
                         query.response(from, response.clone());
 
-                        return Some((target, response));
+                        result = Some((target, response));
+                    } else {
+                        let target = query.target();
+                        debug!(
+                            ?v,
+                            ?target,
+                            ?responder_id,
+                            ?from,
+                            ?from_version,
+                            "Invalid immutable value"
+                        );
                     }
-
-                    let target = query.target();
-                    debug!(
-                        ?v,
-                        ?target,
-                        ?responder_id,
-                        ?from,
-                        ?from_version,
-                        "Invalid immutable value"
-                    );
                 }
                 MessageType::Response(ResponseSpecific::GetMutable(
                     GetMutableResponseArguments {
@@ -161,7 +162,7 @@ impl Core {
                             let response = Response::Mutable(item);
                             query.response(from, response.clone());
 
-                            return Some((target, response));
+                            result = Some((target, response));
                         }
                         Err(error) => {
                             debug!(
@@ -239,6 +240,6 @@ impl Core {
             }
         }
 
-        None
+        result
     }
 }
